@@ -114,12 +114,14 @@ Inductive cf : Type :=
 | COr (neg : bool) (l r : cf)
 | CAnd (neg : bool) (l r : cf).
 
+Definition negif (n x : bool) : bool := if n then negb x else x.
+
 Fixpoint cf_tt (v : N -> bool) (c : cf) : bool :=
   match c with
-  | CBot n => xorb n false
-  | CVar n i => xorb n (v i)
-  | COr n l r => xorb n (cf_tt v l || cf_tt v r)
-  | CAnd n l r => xorb n (cf_tt v l && cf_tt v r)
+  | CBot n => negif n false
+  | CVar n i => negif n (v i)
+  | COr n l r => negif n (cf_tt v l || cf_tt v r)
+  | CAnd n l r => negif n (cf_tt v l && cf_tt v r)
   end.
 
 (** conj_to_pattern *)
@@ -430,20 +432,22 @@ Definition start_resolution (no_shadow : bool) (fuel : nat) (clauses : list (lis
   end.
 
 (** prove_tautology, verdict only:  Some true = pat proved, Some false = neg pat proved, None *)
+Definition decide_tail (no_shadow : bool) (fuel : nat) (c : cf) : res (option bool) :=
+  do n <- of_option (propag_neg c);
+  do k <- to_cnf fuel n;
+  do cls <- of_option (to_clauses k);
+  do x <- start_resolution no_shadow fuel cls;
+  match fst (fst x) with
+  | None => Ok None
+  | Some true => Ok (Some false)
+  | Some false => Ok (Some true)
+  end.
+
 Definition decide (no_shadow : bool) (fuel : nat) (f : form) : res (option bool) :=
   match to_conj_form (FNeg f) with
   | CBot true => Ok (Some false)
   | CBot false => Ok (Some true)
-  | c =>
-      do n <- of_option (propag_neg c);
-      do k <- to_cnf fuel n;
-      do cls <- of_option (to_clauses k);
-      do x <- start_resolution no_shadow fuel cls;
-      match fst (fst x) with
-      | None => Ok None
-      | Some true => Ok (Some false)
-      | Some false => Ok (Some true)
-      end
+  | c => decide_tail no_shadow fuel c
   end.
 
 (* ------------------------------------------------------------------------------------------ *)
